@@ -1,0 +1,36 @@
+//go:build verif
+
+package webtransport
+
+import (
+	"net"
+	"sync"
+
+	"github.com/zishang520/webtransport-go"
+)
+
+// VerifSession stands in for the QUIC session when a Conn runs on an in-memory
+// stream under the verification harness (build tag verif only).
+type VerifSession interface {
+	CloseWithError(code webtransport.SessionErrorCode, msg string) error
+	RemoteAddr() net.Addr
+	LocalAddr() net.Addr
+}
+
+var verifSessions sync.Map // *Conn -> VerifSession
+
+// SetVerifSession attaches a stand-in session to c.
+func SetVerifSession(c *Conn, s VerifSession) {
+	if s == nil {
+		verifSessions.Delete(c)
+		return
+	}
+	verifSessions.Store(c, s)
+}
+
+func verifSession(c *Conn) VerifSession {
+	if v, ok := verifSessions.Load(c); ok {
+		return v.(VerifSession)
+	}
+	return nil
+}
